@@ -822,43 +822,44 @@ def check_param_fully_parsed(ck, facts):
                               "as a whole: e.g. '<name>:2x' or '<name>:2:3' is answered with the rule for 2" % featlib.render(n.get("obj")))
             else:
                 d = obj["d"]
-                # the If whose condition contains this parse call
-                holder = None
-                for m in f.nodes():
-                    if m.get("k") == "If" and any(x is n for x in featlib.walk(m.get("c"))):
-                        holder = m
-                fail_render = featlib.render(holder.get("then")) if holder is not None else None
-                other_uses = 0
-                for m in f.nodes():
-                    if m.get("k") != "If":
-                        continue
-                    for leaf in _or_leaves(m.get("c")):
-                        uses = [x for x in featlib.walk(leaf) if x.get("k") == "Ref" and x.get("d") == d]
-                        if not uses or any(x is n for x in featlib.walk(leaf)):
-                            continue
-                        good = False
-                        if leaf.get("k") == "Bin" and leaf.get("op") == "!=":
-                            for a, b in ((leaf["lhs"], leaf["rhs"]), (leaf["rhs"], leaf["lhs"])):
-                                if (a.get("k") == "MCall" and a.get("n") == "find_first_not_of" and a.get("obj", {}).get("d") == d
-                                        and a.get("a") and a["a"][0].get("k") == "Str" and a["a"][0].get("v") and set(a["a"][0]["v"]) <= DIGITS
-                                        and set(a["a"][0]["v"]) == DIGITS and b.get("k") == "Member" and b.get("n") == "npos"):
-                                    good = True
-                                    fnof = a
-                        if good:
-                            same_if = m is holder
-                            fails = featlib.render(m.get("then")) == fail_render
-                            dominates = f.cfg is None or f.cfg.stmt_dominates(fnof["i"], n["i"]) or same_if
-                            if fails and dominates:
-                                ok = True
-                                detail = "`%s.find_first_not_of(\"0123456789\") != npos` leads to the failure return before the value is used" % obj.get("n")
-                        elif not (leaf.get("k") == "MCall" and leaf.get("n") == "empty"):
-                            other_uses += 1
-                if not ok:
-                    if other_uses or body_checks is None:
-                        undecided, detail = True, "parameter string `%s` is tested by a condition this rule does not understand" % obj.get("n")
+                # Semantic form: on every path on which the parsed VALUE is consumed (any use of the variable that received it other than
+                # the parse call itself), the whole parameter string was validated: `<string>.find_first_not_of("0123456789") == npos`
+                # held.  The boolean form that carries this (early return on the negation, &&-chain in a return, named bool, nested ifs)
+                # does not matter: conditions are split by polarity along the paths.
+                target = n["a"][0] if n.get("a") else None
+                tcore = target
+                while tcore is not None and tcore.get("k") == "Cast":
+                    tcore = tcore["e"]
+
+                def is_digits_test(x):
+                    return (x.get("k") == "MCall" and x.get("n") == "find_first_not_of" and (x.get("obj") or {}).get("k") == "Ref" and x["obj"].get("d") == d
+                            and x.get("a") and x["a"][0].get("k") == "Str" and x["a"][0].get("v") and set(x["a"][0]["v"]) == DIGITS)
+
+                def other_charset_test(x):
+                    return (x.get("k") == "MCall" and x.get("n") in ("find_first_not_of", "find_first_of", "find") and (x.get("obj") or {}).get("k") == "Ref" and x["obj"].get("d") == d
+                            and not is_digits_test(x))
+                if tcore is None or tcore.get("k") != "Ref":
+                    undecided, detail = True, "the parse target `%s` is not a named variable" % featlib.render(target)
+                else:
+                    vd = tcore["d"]
+                    # outcomes are pairs (validation, parse): a use is wrong where the parse succeeded ('T') without the validation having passed
+                    fp = FactPaths(f, is_digits_test, "npos", watch=lambda x: x.get("k") == "Ref" and x.get("d") == vd and x is not tcore,
+                                   more_facts=[(lambda x: x is n, "bool")]).analyse()
+                    uses = fp.watched
+                    bad = [(u, o) for u, o in uses if any(st_[1] == "T" and st_[0] != "T" for st_ in o)]
+                    if fp.unknown or (bad and any(other_charset_test(x) for x in f.nodes())):
+                        undecided, detail = True, "parameter string `%s` is tested by a condition this rule does not understand (`%s`)" % (
+                            obj.get("n"), featlib.render(fp.unknown[0])[:80] if fp.unknown else "another character-set test")
+                    elif not bad:
+                        ok = True
+                        detail = "every use of the parsed `%s` (%d) lies on paths on which `%s.find_first_not_of(\"0123456789\") == npos` held" % (tcore.get("n"), len(uses), obj.get("n"))
+                    elif body_checks is None:
+                        undecided, detail = True, "String::parse body not understood"
                     else:
-                        detail = ("the parameter string `%s` is parsed with String::parse (accepts any prefix that is a number) and no condition "
-                                  "validates the whole string: e.g. '<name>:2x' or '<name>:2:3' is answered with the rule for 2" % obj.get("n"))
+                        u, o = bad[0]
+                        detail = ("the parameter string `%s` is parsed with String::parse (accepts any prefix that is a number) and the value is used at line %s on a path on which the "
+                                  "whole-string validation (digits only) %s: e.g. '<name>:2x' or '<name>:2:3' is answered with the rule for 2" % (
+                                      obj.get("n"), u.get("l"), "had failed" if any(st_ == "FT" for st_ in o) else "was not performed"))
             if undecided:
                 ck.incomplete(RULE, "%s: %s" % (key, detail))
                 continue
@@ -1326,17 +1327,24 @@ class _TokenSizes:
 # path facts: "which value did this call return on the paths that reach a given exit"
 # -------------------------------------------------------------------------------------------------
 class FactPaths:
-    """Walks the statement tree of one function and tracks, per path, the outcome of ONE designated call (the fact):
-    'T' = it succeeded (bool kind: returned true; cmp0 kind: compared equal, i.e. returned 0), 'F' = it did not,
-    'U' = not evaluated on this path.  Conditions are split by polarity (`!`, `&&`, `||`, `== / != 0|true|false`, a const local
-    holding the result).  Collects every normal exit (Return nodes and falling off the end) with the set of possible outcomes."""
+    """Walks the statement tree of one function and tracks, per path, the outcome of designated calls (the facts; usually one):
+    'T' = it succeeded (bool kind: returned true; cmp0 kind: compared equal, i.e. returned 0; npos kind: `== npos`), 'F' = it did
+    not, 'U' = not evaluated on this path.  With several facts an outcome is a string with one letter per fact (correlated).
+    Conditions are split by polarity (`!`, `&&`, `||`, `== / != 0|true|false|npos`, const locals holding the result, a test of it
+    or a boolean expression over it).  Collects every normal exit (Return nodes and falling off the end) and, optionally, every
+    watched node with the set of outcomes possible where it is evaluated."""
 
-    def __init__(self, fn, is_fact, kind):
-        self.fn, self.is_fact, self.kind = fn, is_fact, kind
-        self.aliases = set()       # decl ids of locals initialised with the fact call
-        self.pol_alias = {}        # decl ids of bool locals initialised with a test of the fact -> polarity
+    def __init__(self, fn, is_fact, kind, watch=None, more_facts=()):
+        self.fn = fn
+        self.facts = [(is_fact, kind)] + list(more_facts)
+        self.is_fact, self.kind = is_fact, kind
+        self.watch = watch         # optional predicate on nodes: every such node is recorded with the outcomes possible where it is evaluated
+        self.watched = []          # (node, frozenset of outcomes)
+        self.expr_alias = {}       # bool locals initialised with an expression over the facts (conjunctions ...): decl id -> initialiser
+        self.aliases = {}          # decl ids of locals initialised with a fact call -> fact index
+        self.pol_alias = {}        # decl ids of bool locals initialised with a test of a fact -> (fact index, polarity)
         self.exits = []            # (return node | None, frozenset of outcomes)
-        self.unknown = []          # conditions that mention the fact but are not understood
+        self.unknown = []          # conditions that mention a fact but are not understood
         self.ncalls = sum(1 for n in fn.nodes() if is_fact(n))
 
     @staticmethod
@@ -1345,32 +1353,66 @@ class FactPaths:
             n = n["e"] if n.get("k") == "Cast" else n["a"][0]
         return n
 
+    def fact_of(self, n):
+        """index of the fact whose call (or raw-result local) n is, else None"""
+        if n is None:
+            return None
+        for i, (isf, _) in enumerate(self.facts):
+            if isf(n):
+                return i
+        if n.get("k") == "Ref" and n.get("d") in self.aliases:
+            return self.aliases[n["d"]]
+        return None
+
     def mentions(self, n):
-        return any(self.is_fact(x) or (x.get("k") == "Ref" and (x.get("d") in self.aliases or x.get("d") in self.pol_alias)) for x in featlib.walk(n))
+        return any(self.fact_of(x) is not None or (x.get("k") == "Ref" and (x.get("d") in self.pol_alias or x.get("d") in self.expr_alias)) for x in featlib.walk(n))
 
     def atom(self, c):
-        """+1: c is true exactly when the fact succeeded; -1: exactly when it failed; None: not an atom of the fact"""
+        """(fact index, +1) : c is true exactly when that fact succeeded; (i, -1): exactly when it failed; None: not an atom"""
         c = self.strip(c)
         if c is None:
             return None
         if c.get("k") == "Ref" and c.get("d") in self.pol_alias:
             return self.pol_alias[c["d"]]
-        base = self.is_fact(c) or (c.get("k") == "Ref" and c.get("d") in self.aliases)
-        if base:
-            return 1 if self.kind == "bool" else -1          # a bare compare result is true when it is non-zero (mismatch)
+        i = self.fact_of(c)
+        if i is not None:
+            kind = self.facts[i][1]
+            if kind == "npos":
+                return None
+            return (i, 1 if kind == "bool" else -1)          # a bare compare result is true when it is non-zero (mismatch)
         if c.get("k") == "Bin" and c.get("op") in ("==", "!="):
             for a, b in ((c["lhs"], c["rhs"]), (c["rhs"], c["lhs"])):
                 a, b = self.strip(a), self.strip(b)
-                if a is not None and (self.is_fact(a) or (a.get("k") == "Ref" and a.get("d") in self.aliases)) and b is not None and b.get("k") in ("Int", "Bool"):
+                i = self.fact_of(a)
+                if i is None or b is None:
+                    continue
+                kind = self.facts[i][1]
+                if kind == "npos":
+                    # `s.find_first_not_of(...) == npos`: success = nothing but the allowed characters
+                    if b.get("k") in ("Member", "Ref") and b.get("n") == "npos":
+                        return (i, 1 if c["op"] == "==" else -1)
+                    continue
+                if b.get("k") in ("Int", "Bool"):
                     v = int(b["v"]) if b["k"] == "Int" else int(bool(b["v"]))
-                    if self.kind == "bool":
+                    if kind == "bool":
                         p = 1 if v else -1
                     elif v == 0:
                         p = 1
                     else:
                         return None
-                    return p if c["op"] == "==" else -p
+                    return (i, p if c["op"] == "==" else -p)
         return None
+
+    @staticmethod
+    def _expand(S, i):
+        out = set()
+        for o in S:
+            if o[i] == "U":
+                out.add(o[:i] + "T" + o[i + 1:])
+                out.add(o[:i] + "F" + o[i + 1:])
+            else:
+                out.add(o)
+        return out
 
     def split(self, c, S):
         """-> (outcomes on the true edge, outcomes on the false edge)"""
@@ -1388,19 +1430,48 @@ class FactPaths:
             t1, f1 = self.split(c["lhs"], S)
             t2, f2 = self.split(c["rhs"], f1)
             return t1 | t2, f2
+        if c.get("k") == "Ref" and c.get("d") in self.expr_alias:
+            return self.split(self.expr_alias[c["d"]], S)          # a const bool local: same truth value as its initialiser
         p = self.atom(c)
         if p is not None:
-            S2 = (S - {"U"}) | ({"T", "F"} if "U" in S else set())
-            t = S2 & ({"T"} if p > 0 else {"F"})
+            i, pol = p
+            S2 = self._expand(S, i)
+            t = {o for o in S2 if o[i] == ("T" if pol > 0 else "F")}
             return t, S2 - t
         if self.mentions(c):
             self.unknown.append(c)
         return S, S
 
+    def visit_expr(self, n, S):
+        """records the watched nodes inside an expression with the outcomes possible where each is evaluated (short-circuit aware)"""
+        if n is None or self.watch is None or not S:
+            return
+        k = n.get("k")
+        if self.watch(n):
+            self.watched.append((n, frozenset(S)))
+        if k == "Lambda":
+            return
+        if k == "Bin" and n.get("op") in ("&&", "||"):
+            self.visit_expr(n["lhs"], S)
+            t, f = self.split(n["lhs"], S)
+            self.visit_expr(n["rhs"], t if n["op"] == "&&" else f)
+            return
+        if k == "Cond":
+            self.visit_expr(n["c"], S)
+            t, f = self.split(n["c"], S)
+            self.visit_expr(n["then"], t)
+            self.visit_expr(n["else"], f)
+            return
+        for c in featlib.children(n):
+            self.visit_expr(c, S)
+
     def evaluated(self, n, S):
-        """an expression statement / initialiser that contains the fact call evaluates it"""
-        if n is not None and any(self.is_fact(x) for x in featlib.walk(n)) and "U" in S:
-            return (S - {"U"}) | {"T", "F"}
+        """an expression statement / initialiser that contains a fact call evaluates it"""
+        if n is None:
+            return S
+        for i, (isf, _) in enumerate(self.facts):
+            if any(isf(x) for x in featlib.walk(n)):
+                S = self._expand(S, i)
         return S
 
     def run(self, st, S):
@@ -1414,21 +1485,29 @@ class FactPaths:
         if k == "Decl":
             for v in st.get("vars", []):
                 init = self.strip(v.get("init"))
-                if init is not None and self.is_fact(init) and not v.get("ref"):
-                    self.aliases.add(v["d"])
+                self.visit_expr(v.get("init"), S)
+                if init is not None and self.fact_of(init) is not None and init.get("k") != "Ref" and not v.get("ref"):
+                    self.aliases[v["d"]] = self.fact_of(init)
+                elif init is not None and not v.get("ref") and self.atom(init) is None and self.mentions(init) and (self.fn.type(v["t"]) or "").replace("const ", "").strip() == "bool":
+                    self.expr_alias[v["d"]] = init
+                    t_, f_ = self.split(init, S)        # evaluates the facts in short-circuit order
+                    S = t_ | f_
                 elif init is not None and not v.get("ref") and self.atom(init) is not None:
                     self.pol_alias[v["d"]] = self.atom(init)
-                    S = self.evaluated(init, S)
+                    t_, f_ = self.split(init, S)
+                    S = t_ | f_
                 elif init is not None:
                     S = self.evaluated(init, S)
             return S
         if k == "If":
+            self.visit_expr(st["c"], S)
             t, f = self.split(st["c"], S)
             a = self.run(st.get("then"), set(t))
             b = self.run(st.get("else"), set(f)) if st.get("else") is not None else set(f)
             return a | b
         if k == "Return":
             e = st.get("e")
+            self.visit_expr(e, S)
             S2 = S
             if e is not None and self.atom(e) is None:
                 S2 = self.evaluated(e, S)
@@ -1439,15 +1518,18 @@ class FactPaths:
         if k in ("For", "While", "Do", "ForRange", "Switch", "Try"):
             if self.mentions(st):
                 self.unknown.append(st)
+            self.visit_expr(st, S)
             return S
         if k in ("Case", "Default", "Attributed"):
             return self.run(st.get("s"), S)
-        if k == "Assign" and self.strip(st.get("lhs")) is not None and self.strip(st["lhs"]).get("d") in self.aliases:
+        if k == "Assign" and self.strip(st.get("lhs")) is not None and (self.strip(st["lhs"]).get("d") in self.aliases or self.strip(st["lhs"]).get("d") in self.expr_alias
+                                                                       or self.strip(st["lhs"]).get("d") in self.pol_alias):
             self.unknown.append(st)
+        self.visit_expr(st, S)
         return self.evaluated(st, S)
 
     def analyse(self):
-        rest = self.run(self.fn.body, {"U"})
+        rest = self.run(self.fn.body, {"U" * len(self.facts)})
         if rest:
             self.exits.append((None, frozenset(rest)))
         return self
